@@ -4741,6 +4741,20 @@ fn layout_section_parts<P: Platform>(
 
     let mut records_out = output_sections.new_part_map();
 
+    // The section header of a primary section also describes its secondary sections, so the
+    // primary needs to start at an address that satisfies their alignment as well as its own.
+    let mut secondary_alignments = output_sections.new_section_map_with(|| alignment::MIN);
+    for event in output_order {
+        if let OrderEvent::Section(section_id) = event
+            && let Some(primary_id) = output_sections.merge_target(section_id)
+        {
+            let secondary_alignment =
+                sizes.max_alignment(section_id.part_id_range(), output_sections);
+            let primary_alignment = secondary_alignments.get_mut(primary_id);
+            *primary_alignment = (*primary_alignment).max(secondary_alignment);
+        }
+    }
+
     for event in output_order {
         match event {
             OrderEvent::SetLocation(location) => {
@@ -4776,7 +4790,9 @@ fn layout_section_parts<P: Platform>(
                 );
                 let section_info = output_sections.output_info(section_id);
                 let part_id_range = section_id.part_id_range();
-                let max_alignment = sizes.max_alignment(part_id_range.clone(), output_sections);
+                let max_alignment = sizes
+                    .max_alignment(part_id_range.clone(), output_sections)
+                    .max(*secondary_alignments.get(section_id));
                 if let Some(location) = section_info.location {
                     mem_offset = location.address;
                 }
